@@ -30,6 +30,7 @@ type c16Cfg struct {
 	LogAuth bool `json:"logauth"` // control: WithLogAuthData (secrets must then be visible)
 	SMTP    bool `json:"smtp"`    // drive smtp.Client directly and issue NOOP after Auth returned
 	Retry   bool `json:"retry"`   // smtp mode: call Auth a second time on the same smtp.Client (after whatever the first did)
+	NoHello bool `json:"nohello"` // smtp mode: Auth is the first call on the smtp.Client (it sends EHLO/HELO itself)
 }
 
 type c16Case struct {
@@ -79,7 +80,7 @@ func c16Needles(mech int, secret string) map[string]string {
 
 func c16Describe(l string, p int) string {
 	if strings.HasPrefix(l, "EHLO") {
-		return l + "=ok, then the client's next write fails"
+		return l + "=" + []string{"ok", "ok, then the client's next write fails", "502 (client falls back to HELO)"}[p]
 	}
 	return l + "=" + c16AltNames[p]
 }
@@ -121,8 +122,11 @@ func c16Exec(r *vf.Run, cfg c16Cfg, c *vf.Chooser) (keys, whats []string, contro
 	}
 	sess.Script = func(s *refsmtp.Session, ev *refsmtp.Event, def refsmtp.Action) refsmtp.Action {
 		if ev.Verb == "EHLO" && !useTLS || ev.Verb == "EHLO" && s.InTLS {
-			if c.Choose(ev.Pos(), 2) == 1 {
+			switch c.Choose(ev.Pos(), 3) {
+			case 1:
 				conn.BreakWrites = true
+			case 2:
+				return refsmtp.Action{Kind: refsmtp.ActReply, Code: 502, Text: []string{"5.5.1 command not implemented"}}
 			}
 			return def
 		}
@@ -177,8 +181,10 @@ func c16Exec(r *vf.Run, cfg c16Cfg, c *vf.Chooser) (keys, whats []string, contro
 			if cfg.LogAuth {
 				cl.SetLogAuthData()
 			}
-			if err := cl.Hello("client.example.test"); err != nil {
-				return
+			if !cfg.NoHello {
+				if err := cl.Hello("client.example.test"); err != nil {
+					return
+				}
 			}
 			var a smtp.Auth
 			switch mech {
@@ -314,7 +320,7 @@ func init() {
 	vf.Register(&vf.Check{
 		ID: "C16", Title: "authentication secrets never reach the debug log",
 		Run: func(r *vf.Run) {
-			r.SetRule("mechanism {PLAIN, LOGIN, CRAM-MD5, XOAUTH2, SCRAM-SHA-1, SCRAM-SHA-256, SCRAM-SHA-256-PLUS over real TLS} × 4 marker credentials (base64 padding 0/1/2, '='/',', Unicode) × logger {custom capturing, log.New, log.NewJSON} × {debug only, debug+WithLogAuthData as scanner control} × entry {mail.Client dial+send, smtp.Client Auth then NOOP, smtp.Client Auth, Auth again, then NOOP} × every server script over {conforming, 535, non-base64 challenge, extra challenge, drop, transport write failure on the next client line} at every AUTH step and at the EHLO that precedes AUTH up to the deviation bound; the log (format, arguments, formatted line, raw output, decoded JSON msg) is scanned for the secret, its base64/hex/url-base64 forms and the exact SASL response; distinct by (configuration, script)")
+			r.SetRule("mechanism {PLAIN, LOGIN, CRAM-MD5, XOAUTH2, SCRAM-SHA-1, SCRAM-SHA-256, SCRAM-SHA-256-PLUS over real TLS} × 4 marker credentials (base64 padding 0/1/2, '='/',', Unicode) × logger {custom capturing, log.New, log.NewJSON} × {debug only, debug+WithLogAuthData as scanner control} × entry {mail.Client dial+send, smtp.Client Auth then NOOP, smtp.Client Auth, Auth again, then NOOP; each smtp.Client entry with and without a preceding Hello call} × every server script over {conforming, 535, non-base64 challenge, extra challenge, drop, transport write failure on the next client line} at every AUTH step and at the EHLO that precedes AUTH {ok, write failure afterwards, 502 with HELO fallback} up to the deviation bound; the log (format, arguments, formatted line, raw output, decoded JSON msg) is scanned for the secret, its base64/hex/url-base64 forms and the exact SASL response; distinct by (configuration, script)")
 			r.Assume("user names are not secrets", "a server that echoes credentials in its own reply text is outside the alphabet")
 			bound := 3
 			if r.Thorough {
@@ -336,6 +342,8 @@ func init() {
 								cfgs = append(cfgs, c16Cfg{Mech: m, Cred: cr, Logger: lg, LogAuth: la, SMTP: sm})
 								if sm && !la {
 									cfgs = append(cfgs, c16Cfg{Mech: m, Cred: cr, Logger: lg, LogAuth: la, SMTP: sm, Retry: true})
+									cfgs = append(cfgs, c16Cfg{Mech: m, Cred: cr, Logger: lg, LogAuth: la, SMTP: sm, NoHello: true})
+									cfgs = append(cfgs, c16Cfg{Mech: m, Cred: cr, Logger: lg, LogAuth: la, SMTP: sm, NoHello: true, Retry: true})
 								}
 							}
 						}
